@@ -118,6 +118,8 @@ func (t *treeSimple) mkdir(r io.Reader, cfg *config) error {
 		return err
 	}
 
+	t.grower.enableValidation()
+	// when detect invalid node name, return error. process end.
 	if err := t.grower.grow(roots); err != nil {
 		return err
 	}
